@@ -1266,18 +1266,41 @@ func nilReturnConds(p *Prog, fn *ssa.Function) []paramCond {
 		return nil
 	}
 	var nilRets []*ssa.Return
+	// nil merged into a single return (result of a normalised helper, named result): the edge of the phi
+	// that carries nil plays the part of the returning block
+	var nilEdgeFrom *ssa.BasicBlock
+	var nilEdgeTo *ssa.BasicBlock
+	nNilEdges := 0
 	for _, ret := range returnsOf(fn) {
 		v := deref(ret.Results[idx])
 		if isNilConst(v) {
 			nilRets = append(nilRets, ret)
 			continue
 		}
+		if ph, isPhi := v.(*ssa.Phi); isPhi {
+			okPhi := true
+			for i, e := range ph.Edges {
+				if isNilConst(e) {
+					nNilEdges++
+					nilEdgeFrom, nilEdgeTo = ph.Block().Preds[i], ph.Block()
+					continue
+				}
+				c := &PathCtx{K: newKeyer(), assign: map[string]bool{}, phiSel: map[*ssa.Phi]ssa.Value{}, P: p}
+				if c.NilState(e) != -1 {
+					okPhi = false
+				}
+			}
+			if okPhi {
+				continue
+			}
+			return nil
+		}
 		c := &PathCtx{K: newKeyer(), assign: map[string]bool{}, phiSel: map[*ssa.Phi]ssa.Value{}, P: p}
 		if c.NilState(v) != -1 {
 			return nil // a return whose nilness is unknown
 		}
 	}
-	if len(nilRets) != 1 {
+	if len(nilRets)+nNilEdges != 1 {
 		return nil
 	}
 	paramIdx := func(v ssa.Value) (int, int64, bool) {
@@ -1292,12 +1315,24 @@ func nilReturnConds(p *Prog, fn *ssa.Function) []paramCond {
 		return 0, 0, false
 	}
 	var out []paramCond
-	ret := nilRets[0]
-	for x := ret.Block(); x != nil; x = x.Idom() {
+	var startBlock *ssa.BasicBlock
+	type edge struct{ from, to *ssa.BasicBlock }
+	var chain []edge
+	if len(nilRets) == 1 {
+		startBlock = nilRets[0].Block()
+	} else {
+		// the nil edge itself, then what dominates its source
+		chain = append(chain, edge{nilEdgeFrom, nilEdgeTo})
+		startBlock = nilEdgeFrom
+	}
+	for x := startBlock; x != nil; x = x.Idom() {
 		if len(x.Preds) != 1 {
 			continue
 		}
-		pp := x.Preds[0]
+		chain = append(chain, edge{x.Preds[0], x})
+	}
+	for _, ed := range chain {
+		pp, x := ed.from, ed.to
 		iff, ok := pp.Instrs[len(pp.Instrs)-1].(*ssa.If)
 		if !ok || pp.Succs[0] == pp.Succs[1] {
 			continue
